@@ -33,6 +33,9 @@ type Index map[string]Record
 // in the provided io.Reader.
 func NewIndex(fasta io.Reader) (Index, error) {
 	sc := bufio.NewScanner(fasta)
+	// Sequence lines may be far longer than the scanner's default
+	// limit of 64 KiB (an unwrapped chromosome is one line).
+	sc.Buffer(nil, 1<<31-1)
 	sc.Split(func(data []byte, atEOF bool) (advance int, token []byte, err error) {
 		if atEOF && len(data) == 0 {
 			return 0, nil, nil
